@@ -1282,7 +1282,15 @@ func (e *Exec) deliverOnR0(p *pendingTx, blk *Block, rec *BlockRec) {
 		if t.Granter != "" {
 			granter, _ = sdk.AccAddressFromBech32(t.Granter)
 		}
-		bt, err = e.Env.BuildTx(TxParams{Msgs: msgs, Signers: signers, Modes: t.Modes, Seqs: seqs, AccNums: nums, ChainID: chain, Fee: e.feeOf(t), Gas: gas, SignOver: signOver, Granter: granter})
+		var timeoutH uint64
+		if t.Timeout != 0 {
+			if th := blk.Height + int64(t.Timeout); th >= 1 {
+				timeoutH = uint64(th)
+			} else {
+				timeoutH = 1
+			}
+		}
+		bt, err = e.Env.BuildTx(TxParams{Msgs: msgs, Signers: signers, Modes: t.Modes, Seqs: seqs, AccNums: nums, ChainID: chain, Fee: e.feeOf(t), Gas: gas, SignOver: signOver, Granter: granter, TimeoutHeight: timeoutH})
 		if err != nil {
 			// the SDK client refuses to build it (e.g. GetSigners panics on a malformed address): send it raw
 			bt, err = e.Env.BuildRawTx(msgs, signers, seqs, nums, chain, e.feeOf(t), gas)
@@ -1521,6 +1529,10 @@ func (e *Exec) judgeTx(p *pendingTx, bt *BuiltTx, pred *prediction, accepted boo
 			e.viol("C15", "fee.unpayable_accepted", ent, "tx %s accepted although %s (fee %s)", desc, why, bt.Fee)
 			e.resync(r0.DeliverStores())
 		}
+		return
+	}
+	if tr.Codespace == "sdk" && tr.Code == 30 && p.Spec != nil && p.Spec.Timeout < 0 {
+		// the transaction's timeout height had passed: refused by the SDK's ante chain, not a verdict on the messages
 		return
 	}
 	if tr.Codespace == "sdk" && (tr.Code == 11 || tr.Code == 41) {
